@@ -19,10 +19,14 @@ PROP = "C06"
 FAMILIES = ("tiny_many", "full_channel", "degenerate", "all_ties", "mixed", "early_finisher", "very_many")
 
 
-def gen_case(rng):
-    fam = rng.choice(FAMILIES)
+def gen_case(rng, fam=None):
+    fam = fam or rng.choice(FAMILIES)
     bsz = rng.choice((256, 512, 1024, 4096, 65536))
-    if fam == "tiny_many":
+    if fam == "hundreds":
+        # far more sources than any plausible pool, cap or table in the program (130..300 worker threads), most of them
+        # with more messages than a channel holds, so that every early worker blocks in send() before the late ones start
+        srcs = _hundreds(rng, rng.choice((130, 150, 200, 260, 300)))
+    elif fam == "tiny_many":
         srcs = merge.gen_sources(rng, rng.randint(3, 6), bsz, max_msgs=3, first_line_max=bsz // 2)
     elif fam == "very_many":
         srcs = merge.gen_sources(rng, rng.randint(8, 20), bsz, max_msgs=3, first_line_max=bsz // 2)
@@ -73,6 +77,24 @@ def _all_same_instant(rng, n, bsz, t):
     return out
 
 
+def _hundreds(rng, n):
+    import world
+    t0 = 978307200_000_000_000
+    pool = sorted(t0 + rng.randrange(0, 4000) * 1_000_000_000 for _ in range(40))
+    out = []
+    for si in range(n):
+        k = rng.randint(6, 9) if rng.random() < 0.85 else rng.randint(0, 3)
+        if k == 0:
+            d = b"nothing dated in here\n"
+            out.append(merge.Source("h%03d.log" % si, "notimestamp", [], d, d))
+            continue
+        p = world.TextLogParams(notation=1, off_min=0, n_msgs=k, src_letter=bytes([65 + si % 26]),
+                                instants=sorted(rng.choice(pool) for _ in range(k)), cont_p=0.0, body_len=(4, 12))
+        content, msgs, _ = world.gen_text_log(rng, p)
+        out.append(merge.Source("h%03d.log" % si, "text", msgs, content, content))
+    return out
+
+
 def run_case(seed, i, tier):
     if i % 8 == 7:
         # workers of every kind (evtx, journal, accounting, text) under K schedules; scenario replays go through c01's format
@@ -84,7 +106,10 @@ def run_case(seed, i, tier):
         return cr
     rng = core.rng_for(seed, PROP, i)
     K = 4 if tier == "quick" else 12
-    fam, bsz, srcs, opts = gen_case(rng)
+    hundreds = (i % 100 == 42)
+    fam, bsz, srcs, opts = gen_case(rng, "hundreds" if hundreds else None)
+    if hundreds:
+        K = 2
     expected = merge.model_stdout(srcs)
     hashseed = rng.getrandbits(32)
     nw = mergecheck.n_workers(srcs)
@@ -152,7 +177,8 @@ def minimise(rp, cls):
 
 RULE = ("one case = one generated multi-source scenario (families: many tiny sources / a source with more "
         "messages than the channel holds / zero-message sources / all-equal instants / compressed mix / early "
-        "finisher) executed under K independently drawn schedules (policies: random with stickiness, PCT, "
+        "finisher; one case in a hundred: 130..300 sources at once, most of them with more messages than a channel holds"
+        ") executed under K independently drawn schedules (policies: random with stickiness, PCT, "
         "round-robin, starved coordinator, starved worker, worker-first, lowest-id; select-pick random/lowest/"
         "highest). A run is non-trivial if it has >=2 live worker threads; distinct = distinct "
         "(scenario digest, coordinator arrival sequence) pairs, counted by hashing.")
